@@ -42,12 +42,13 @@ func (p c01) Batches(tier string, seed uint64) []core.Batch {
 	b = append(b, spread("corpus", 8, 0)...) // all pairs of the versions in this machine's dpkg database
 	b = append(b, spread("dpkg", 16, tierN(tier, 60, 400))...)
 	b = append(b, spread("perl", 4, tierN(tier, 5000, 40000))...)
+	b = append(b, core.Batch{Name: "volume", N: tierN(tier, 3_000_000, 30_000_000)}) // one case, one process: see volume.go
 	return append(b, conc(tierN(tier, 300, 2000), "rand", "less")...)
 }
 
 func (c01) Mandatory(tier string) []string {
 	m := []string{"rule:epoch", "rule:equal:identical", "rule:equal:missing-revision-vs-zero", "rule:equal:textually-different",
-		"class:number-beyond-uint64", "anyrule:leading-zeros", "anyrule:revision", "anyrule:missing-vs-present", "less-agree", "pinned"}
+		"class:number-beyond-uint64", "anyrule:leading-zeros", "anyrule:revision", "anyrule:missing-vs-present", "less-agree", "pinned", "volume:versions-parsed-in-one-process"}
 	for _, c := range []string{"tilde-vs-end", "tilde-vs-letter", "tilde-vs-punct", "end-vs-letter", "end-vs-punct", "letter-vs-letter",
 		"letter-vs-punct", "punct-vs-punct", "number-longer-wins", "number-first-differing-digit"} {
 		m = append(m, "class:"+c)
@@ -129,6 +130,10 @@ func (p c01) RunBatch(t *core.T, b core.Batch) {
 	rc := ruleCount{}
 	defer rc.flush(t)
 	switch b.Name {
+	case "volume":
+		in := volInput(t.Rand("volume").U64(), b.N)
+		vc, _ := volDecode(in)
+		t.Case("volume", in, func(c *core.C) { volumeParse(c, t, vc, true) })
 	case "pinned":
 		for _, e := range c01Pinned {
 			a, bb := splitText(e[0]), splitText(e[1])
@@ -417,6 +422,10 @@ func (p c01) perlBatch(t *core.T, rc ruleCount, b core.Batch) {
 func (p c01) RunCase(t *core.T, kind string, input []byte) {
 	rc := ruleCount{}
 	switch kind {
+	case "volume":
+		if vc, ok := volDecode(input); ok {
+			t.Case(kind, input, func(c *core.C) { volumeParse(c, t, vc, true) })
+		}
 	case "pair":
 		a, b := decPair(input)
 		t.Case(kind, input, func(c *core.C) { p.judge(t, rc, a, b, true); p.judge(t, rc, b, a, false) })
